@@ -13,6 +13,7 @@ import (
 )
 
 type SV struct {
+	Ptr    *Loc // pointer to a not-yet-escaped local object (kept symbolic)
 	T      *T
 	Ty     SType
 	IsNil  bool // untyped nil
@@ -98,6 +99,9 @@ func (ex *Ex) lookupIdent(env *Env, name string) (SV, bool) {
 	}
 	fr := env.fr
 	w := ex.W
+	if name == "lvl" && fr != nil && fr.Lvl != nil {
+		return SV{T: fr.Lvl, Ty: tInt}, true
+	}
 	if name == "$n" && fr != nil && fr.CurLoop != nil {
 		for _, ins := range fr.CurLoop.Header.Instrs {
 			if phi, ok := ins.(*ssa.Phi); ok && phi.Comment == "rangeindex" {
@@ -125,6 +129,19 @@ func (ex *Ex) lookupIdent(env *Env, name string) (SV, bool) {
 		for i, rn := range env.resNames {
 			if rn == name && i < len(env.results) {
 				return env.results[i], true
+			}
+		}
+		if fr.CurLoop != nil {
+			for _, b := range fn.Blocks {
+				for _, ins := range b.Instrs {
+					if phi, ok := ins.(*ssa.Phi); ok && phi.Comment == name {
+						if v, ok := st.regs[phi]; ok && (b == fr.CurLoop.Header || !fr.CurLoop.Blocks[b]) {
+							if b == fr.CurLoop.Header {
+								return SV{T: ex.termOf(fr, st, v, phi.Type()), Ty: SType{G: phi.Type()}}, true
+							}
+						}
+					}
+				}
 			}
 		}
 		for i, p := range fn.Params {
@@ -184,6 +201,11 @@ func (ex *Ex) lookupIdent(env *Env, name string) (SV, bool) {
 			if foundAddr {
 				lv := ex.loadFrom(fr, st, v, found.Type().(*types.Pointer).Elem(), nil)
 				return SV{T: lv.T, Ty: SType{G: found.Type().(*types.Pointer).Elem()}}, true
+			}
+			if v.Ptr != nil && v.Ptr.Cell > 0 && len(v.Ptr.Path) == 0 {
+				if _, escaped := st.mat[v.Ptr.Cell]; !escaped {
+					return SV{Ptr: v.Ptr, Ty: SType{G: found.Type()}}, true
+				}
 			}
 			return SV{T: ex.termOf(fr, st, v, found.Type()), Ty: SType{G: found.Type()}}, true
 		}
@@ -584,6 +606,8 @@ func (ex *Ex) trBinop(env *Env, e *Expr) (SV, error) {
 		var eq *T
 		if a.IsNil && b.IsNil {
 			eq = tTrue
+		} else if (a.IsNil && b.Ptr != nil) || (b.IsNil && a.Ptr != nil) {
+			eq = tFalse
 		} else if a.IsNil || b.IsNil {
 			x := a
 			if a.IsNil {
@@ -662,6 +686,24 @@ func (ex *Ex) trField(env *Env, e *Expr) (SV, error) {
 			}
 		}
 		return SV{}, env.errf(e, "unknown package member %s.%s", a.IsPkg, e.Name)
+	}
+	if a.Ptr != nil && a.Ty.G != nil {
+		if p, ok := a.Ty.G.Underlying().(*types.Pointer); ok {
+			if stt, ok := p.Elem().Underlying().(*types.Struct); ok {
+				idx, path := findField(stt, e.Name)
+				if idx < 0 {
+					return SV{}, env.errf(e, "no field %s in %s", e.Name, p.Elem())
+				}
+				v := env.st.cells[a.Ptr.Cell]
+				ft := p.Elem()
+				for _, pi := range path {
+					st2 := ft.Underlying().(*types.Struct)
+					v = w.StructGet(v, st2, pi)
+					ft = st2.Field(pi).Type()
+				}
+				return SV{T: v, Ty: SType{G: ft}}, nil
+			}
+		}
 	}
 	if a.T == nil || a.Ty.G == nil {
 		return SV{}, env.errf(e, "field selection on untyped value")
@@ -834,6 +876,17 @@ func (ex *Ex) trCall(env *Env, e *Expr) (SV, error) {
 			return SV{}, env.errf(e, "bad method signature string")
 		}
 		return SV{T: App("hasM$"+s[:k]+"$"+mangle(s[k:]), SBool, args[0].T), Ty: tBool}, nil
+	case "deref":
+		if err := need(1); err != nil {
+			return SV{}, err
+		}
+		a := args[0]
+		p, ok := a.Ty.G.Underlying().(*types.Pointer)
+		if !ok {
+			return SV{}, env.errf(e, "deref of non-pointer")
+		}
+		lv := ex.loadFrom(env.fr, env.st, Val{T: a.T}, p.Elem(), nil)
+		return SV{T: lv.T, Ty: SType{G: p.Elem()}}, nil
 	case "fresh":
 		return SV{T: Not(App("alloc0", SBool, args[0].T)), Ty: tBool}, nil
 	case "ifaceOf":
